@@ -228,6 +228,12 @@ def features(rec):
         byname.setdefault(n, set()).add(m)
     if any(len(ms) > 1 for ms in byname.values()):
         f.add("F:same-name-different-module")
+    names = [o["o"] for o in rec["prog"]]
+    callers = {"REDUCE", "OBJ", "INST", "NEWOBJ", "NEWOBJ_EX", "BINPERSID", "PERSID", "BUILD"}
+    mutators = {"APPEND", "APPENDS", "SETITEM", "SETITEMS", "ADDITEMS"}
+    first_call = next((i for i, n in enumerate(names) if n in callers), None)
+    if first_call is not None and any(n in mutators for n in names[first_call + 1:]):
+        f.add("F:mutation-after-call")
     return f
 
 
